@@ -95,6 +95,7 @@ def _seq_strategy(tier):
     op = st.one_of(
         st.tuples(st.just('alloc'), st.integers(1, 4)),
         st.tuples(st.just('alloc'), st.integers(1, 4)),
+        st.tuples(st.just('alloc_inside'), st.integers(1, 3), st.booleans(), st.integers(1, 4)),
         st.tuples(st.just('store_high'), st.sampled_from(HIGH), st.booleans()),
         st.tuples(st.just('store_high'), st.integers(1, 12), st.booleans()),
         st.tuples(st.just('store_issued'), st.booleans()),
@@ -104,6 +105,7 @@ def _seq_strategy(tier):
         st.tuples(st.just('restore_high'), st.integers(1, 12), st.booleans()),
         st.tuples(st.just('copy_in'), st.lists(st.sampled_from(HIGH) | st.integers(1, 12), min_size=1, max_size=3)),
         st.tuples(st.just('reopen')),
+        st.tuples(st.just('crash_reopen'), st.booleans()),
         st.tuples(st.just('pack')),
         st.tuples(st.just('push')),
         st.tuples(st.just('pop')),
@@ -283,6 +285,43 @@ def execute(case):
             if k == 'alloc':
                 for _ in range(op[1]):
                     cur.new_oid()
+            elif k == 'alloc_inside':
+                # allocation while a transaction that has already stored records is between store and finish:
+                # the ids it stored (one issued before, one arbitrary) are neither committed nor free
+                from ZODB.Connection import TransactionMetaData
+                t = TransactionMetaData()
+                mine = cur.new_oid()
+                if out.failures:
+                    break
+                foreign = p64(max([u64(x) for x in present() | issued] + [0]) + op[1])
+                cur.tpc_begin(t)
+                try:
+                    cur.store(mine, Z64, rec(), '', t)
+                    stored = {mine}
+                    if op[2] and foreign not in issued:
+                        cur.store(foreign, Z64, rec(), '', t)
+                        stored.add(foreign)
+                    before = set(issued)
+                    for _ in range(op[3]):
+                        cur.new_oid()
+                    window = issued - before
+                    cur.tpc_vote(t)
+                    cur.tpc_finish(t)
+                except BaseException:
+                    cur.tpc_abort(t)
+                    raise
+                out.evals += 1
+                clash = window & stored
+                if clash and isinstance(cur, DemoStorage) and mine not in clash:
+                    # a demo storage "rejects any id present in either layer or already issued" (anchor): a record
+                    # stored under an arbitrary id by a transaction still in progress is neither - not judged
+                    out.label('demo-allocation-of-pending-arbitrary-id')
+                elif clash:
+                    out.fail((PROPERTY, 'new_oid', 'id-of-record-being-committed'),
+                             'new_oid returned %r while a transaction that had stored a record under it was between store and finish' % (
+                                 sorted(u64(x) for x in clash),))
+                state['high_event'] = True
+                out.label('alloc-inside-open-transaction')
             elif k == 'store_high':
                 oid = p64(op[1]) if op[1] > 12 else p64(max([u64(x) for x in present() | issued] + [0]) + op[1])
                 if oid in issued:
@@ -356,6 +395,31 @@ def execute(case):
                 issued.clear()
                 state['high_event'] = True
                 out.label('reopen')
+            elif k == 'crash_reopen' and isinstance(cur, FileStorage) and len(stack) == 1 and kind == 'fs':
+                # the process dies between vote and finish; the file is reopened (the unfinished tail is cut off),
+                # with or without the index saved earlier
+                from ZODB.Connection import TransactionMetaData
+                t = TransactionMetaData()
+                cur.tpc_begin(t)
+                x = cur.new_oid()
+                if out.failures:
+                    cur.tpc_abort(t)
+                    break
+                cur.store(x, Z64, rec(), '', t)
+                cur.tpc_vote(t)
+                path = os.path.join(d, 'Data.fs')
+                with open(path, 'rb') as f:
+                    image = f.read()
+                cur.tpc_abort(t)
+                cur.close()
+                with open(path, 'wb') as f:
+                    f.write(image)
+                if op[1] and os.path.exists(path + '.index'):
+                    os.remove(path + '.index')
+                stack[-1] = watch(mkfs('Data.fs'))
+                issued.clear()
+                state['high_event'] = True
+                out.label('reopen-after-crash-in-commit')
             elif k == 'pack' and not isinstance(cur, DemoStorage):
                 from ZODB.serialize import referencesf
                 try:
